@@ -1,15 +1,57 @@
 import SfVerif.Lemmas.Ctx3
-/-! The entry points on a valid handle. -/
+/-! The entry points on a valid handle — for arbitrary input bytes. -/
 namespace SfVerif
 open SfVerif.Gen
 
 theorem fuel_eq (c : Ctx) : c.fuel = eagerFuel c.input := rfl
 
-theorem getAtIndex_node_ok {c : Ctx} (hc : CInv c) (hwf : WF c.input) {h : Handle} {m : Node}
+theorem specPair_some {b : Bytes} {p i kp ko kl ke : Nat} {hd : Hdr} (h : specPair b p i = some (kp, ko, kl, ke, hd)) :
+    specKeyPos b p i = some kp ∧ readHdr b kp = some (.scalar (.str ko kl) ke) ∧ readHdr b ke = some hd := by
+  simp only [specPair] at h
+  cases hs : specKeyPos b p i with
+  | none => rw [hs] at h; cases h
+  | some kp' =>
+    rw [hs] at h; simp only [] at h
+    split at h
+    · rename_i ko' kl' ke' hk
+      cases hv : readHdr b ke' with
+      | none => rw [hv] at h; cases h
+      | some hd' =>
+        rw [hv] at h; simp only [Option.some.injEq, Prod.mk.injEq] at h
+        obtain ⟨rfl, rfl, rfl, rfl, rfl⟩ := h
+        exact ⟨rfl, hk, hv⟩
+    · cases h
+
+/-- no readable pair `i`: the value position is not there or its header does not read -/
+theorem specPair_none_val {b : Bytes} {p i : Nat} (h : specPair b p i = none) :
+    specChild b p (.val i) = none ∨ ∃ ke, specChild b p (.val i) = some ke ∧ readHdr b ke = none := by
+  simp only [specPair] at h
+  simp only [specChild]
+  cases hs : specKeyPos b p i with
+  | none => left; rfl
+  | some kp =>
+    rw [hs] at h; simp only [] at h ⊢
+    split at h
+    · rename_i ko kl ke hk
+      cases hv : readHdr b ke with
+      | none => right; exact ⟨ke, rfl, hv⟩
+      | some hd => rw [hv] at h; cases h
+    · left; rfl
+
+theorem valueAt_err {b : Bytes} {root : Nat} {path : Path} {pos : Nat} {s : PStep}
+    (hpos : specPath b 0 path = some pos)
+    (h : specChild b pos s = none ∨ ∃ cp, specChild b pos s = some cp ∧ readHdr b cp = none) :
+    Spec.valueAt b root (path ++ [s]) = .err ErrorCode_ReadError := by
+  simp only [Spec.valueAt, specPath_append, hpos]
+  rcases h with h | ⟨cp, h1, h2⟩
+  · simp only [h]
+  · simp only [h1, h2]
+
+theorem getAtIndex_node_ok {c : Ctx} (hc : CInv c) {h : Handle} {m : Node}
     (hm : c.nodeAt? h = some m) (i : Nat) :
     (c.getAtIndex (.node h) i).2 = Spec.getAtIndex c.input h i ∧
     ReadStepOK c (c.getAtIndex (.node h) i).1 (c.getAtIndex (.node h) i).2 := by
-  obtain ⟨pos, hd, hpos, hh, hinv, hgood, hhdr, hshape⟩ := nodeAt_spec hc hwf hm
+  obtain ⟨pos, hd, hpos, hh, hinv, hhdr, hshape⟩ := nodeAt_spec hc hm
   cases hd with
   | arr len body =>
     obtain ⟨es, e, rfl⟩ := inv_arr_form hinv hh
@@ -18,11 +60,13 @@ theorem getAtIndex_node_ok {c : Ctx} (hc : CInv c) (hwf : WF c.input) {h : Handl
       simp [Ctx.getAtIndex, Ctx.dispatch, hm, Ctx.kindOf, Ctx.idxStep, fuel_eq]
     rw [hdisp]
     by_cases hi : i < len
-    · obtain ⟨m', cp, cn, hres, hinv', hsc, hchild, hcinv⟩ := getAtIndex_arr_ok hgood hinv hh hi
-      have := nodeOp_child hc hwf hm rfl (getAtIndex_opOK c.input i) PStep.elem hpos hres hsc hchild hcinv
-      simp only [Spec.getAtIndex, hhdr, if_pos hi]; exact this
+    · simp only [Spec.getAtIndex, hhdr, if_pos hi]
+      rcases getAtIndex_arr_tot hinv hh hi with ⟨cp, hd', m', cn, hsc, hhd', hres, hinv', hchild, hcinv⟩ | ⟨hspec, m', hres, hinv'⟩
+      · exact nodeOp_child hc hm rfl (getAtIndex_opOK c.input i) PStep.elem hpos hres hsc hchild hcinv
+      · have := nodeOp_flat hc hm rfl (getAtIndex_opOK c.input i) PStep.elem hres (by intro i h; cases h)
+        rw [valueAt_err hpos hspec]; exact this
     · have hres := (getAtIndex_oob (i := i) hinv (eagerFuel c.input)).1 body hh (by omega)
-      have := nodeOp_flat hc hwf hm rfl (getAtIndex_opOK c.input i) PStep.elem hres (by intro i h; cases h)
+      have := nodeOp_flat hc hm rfl (getAtIndex_opOK c.input i) PStep.elem hres (by intro i h; cases h)
       simp only [Spec.getAtIndex, hhdr, if_neg hi]; exact this
   | map len body =>
     obtain ⟨ps, e, rfl⟩ := inv_map_form hinv hh
@@ -31,11 +75,15 @@ theorem getAtIndex_node_ok {c : Ctx} (hc : CInv c) (hwf : WF c.input) {h : Handl
       simp [Ctx.getAtIndex, Ctx.dispatch, hm, Ctx.kindOf, Ctx.idxStep, fuel_eq]
     rw [hdisp]
     by_cases hi : i < len
-    · obtain ⟨m', cp, cn, kp, kc, hres, _, hinv', hsc, hchild, hcinv, _⟩ := getAtIndex_obj_ok hgood hinv hh hi
-      have := nodeOp_child hc hwf hm rfl (getAtIndex_opOK c.input i) PStep.val hpos hres hsc hchild hcinv
-      simp only [Spec.getAtIndex, hhdr, if_pos hi]; exact this
+    · simp only [Spec.getAtIndex, hhdr, if_pos hi]
+      rcases getAtIndex_obj_tot hinv hh hi with ⟨kp, ko, kl, ke, hd', m', cn, hsp, hres, _, hinv', hchild, hcinv, _⟩ | ⟨hsp, m', hres, _, hinv'⟩
+      · obtain ⟨h1, h2, h3⟩ := specPair_some hsp
+        have hsc : specChild c.input pos (.val i) = some ke := by simp only [specChild, h1, h2]
+        exact nodeOp_child hc hm rfl (getAtIndex_opOK c.input i) PStep.val hpos hres hsc hchild hcinv
+      · have := nodeOp_flat hc hm rfl (getAtIndex_opOK c.input i) PStep.val hres (by intro i h; cases h)
+        rw [valueAt_err hpos (specPair_none_val hsp)]; exact this
     · have hres := ((getAtIndex_oob (i := i) hinv (eagerFuel c.input)).2 body hh (by omega)).1
-      have := nodeOp_flat hc hwf hm rfl (getAtIndex_opOK c.input i) PStep.val hres (by intro i h; cases h)
+      have := nodeOp_flat hc hm rfl (getAtIndex_opOK c.input i) PStep.val hres (by intro i h; cases h)
       simp only [Spec.getAtIndex, hhdr, if_neg hi]; exact this
   | scalar v e =>
     have hmv := inv_scalar_form hinv hh
@@ -45,18 +93,18 @@ theorem getAtIndex_node_ok {c : Ctx} (hc : CInv c) (hwf : WF c.input) {h : Handl
     rw [hdisp]
     exact ⟨by simp [Spec.getAtIndex, hhdr], ReadStepOK.same hc trivial⟩
 
-theorem getKeyAtIndex_node_ok {c : Ctx} (hc : CInv c) (hwf : WF c.input) {h : Handle} {m : Node}
+theorem getKeyAtIndex_node_ok {c : Ctx} (hc : CInv c) {h : Handle} {m : Node}
     (hm : c.nodeAt? h = some m) (i : Nat) :
     (c.getKeyAtIndex (.node h) i).2 = Spec.getKeyAtIndex c.input h i ∧
     ReadStepOK c (c.getKeyAtIndex (.node h) i).1 (c.getKeyAtIndex (.node h) i).2 := by
-  obtain ⟨pos, hd, hpos, hh, hinv, hgood, hhdr, hshape⟩ := nodeAt_spec hc hwf hm
+  obtain ⟨pos, hd, hpos, hh, hinv, hhdr, hshape⟩ := nodeAt_spec hc hm
   cases hd with
   | arr len body =>
     obtain ⟨es, e, rfl⟩ := inv_arr_form hinv hh
     have hdisp : c.getKeyAtIndex (.node h) i = (c, .err ErrorCode_NotAnObject) := by
       simp [Ctx.getKeyAtIndex, Ctx.dispatch, hm, Ctx.kindOf]
     rw [hdisp]
-    exact ⟨by simp [Spec.getKeyAtIndex, hhdr], ReadStepOK.same hc trivial⟩
+    exact ⟨by simp [Spec.getKeyAtIndex, hpos, hh], ReadStepOK.same hc trivial⟩
   | map len body =>
     obtain ⟨ps, e, rfl⟩ := inv_map_form hinv hh
     have hdisp : c.getKeyAtIndex (.node h) i =
@@ -64,25 +112,30 @@ theorem getKeyAtIndex_node_ok {c : Ctx} (hc : CInv c) (hwf : WF c.input) {h : Ha
       simp [Ctx.getKeyAtIndex, Ctx.dispatch, hm, Ctx.kindOf, fuel_eq]
     rw [hdisp]
     by_cases hi : i < len
-    · obtain ⟨m', cp, cn, kp, kc, _, hres, hinv', _, _, _, hsc, hchild, hcinv⟩ := getAtIndex_obj_ok hgood hinv hh hi
-      have := nodeOp_child hc hwf hm rfl (getKeyAtIndex_opOK c.input i) PStep.key hpos hres hsc hchild hcinv
-      simp only [Spec.getKeyAtIndex, hhdr, if_pos hi]; exact this
+    · simp only [Spec.getKeyAtIndex, hpos, hh, if_pos hi]
+      rcases getAtIndex_obj_tot hinv hh hi with ⟨kp, ko, kl, ke, hd', m', cn, hsp, _, hres, hinv', _, _, hkchild⟩ | ⟨hsp, m', _, hres, hinv'⟩
+      · obtain ⟨h1, h2, h3⟩ := specPair_some hsp
+        have hsc : specChild c.input pos (.key i) = some kp := by simp only [specChild, h1]
+        simp only [hsp]
+        exact nodeOp_child hc hm rfl (getKeyAtIndex_opOK c.input i) PStep.key hpos hres hsc hkchild (Inv.scalar h2)
+      · have := nodeOp_flat hc hm rfl (getKeyAtIndex_opOK c.input i) PStep.key hres (by intro i h; cases h)
+        simp only [hsp]; exact this
     · have hres := ((getAtIndex_oob (i := i) hinv (eagerFuel c.input)).2 body hh (by omega)).2
-      have := nodeOp_flat hc hwf hm rfl (getKeyAtIndex_opOK c.input i) PStep.key hres (by intro i h; cases h)
-      simp only [Spec.getKeyAtIndex, hhdr, if_neg hi]; exact this
+      have := nodeOp_flat hc hm rfl (getKeyAtIndex_opOK c.input i) PStep.key hres (by intro i h; cases h)
+      simp only [Spec.getKeyAtIndex, hpos, hh, if_neg hi]; exact this
   | scalar v e =>
     have hmv := inv_scalar_form hinv hh
     subst hmv
     have hdisp : c.getKeyAtIndex (.node h) i = (c, .err ErrorCode_NotAnObject) := by
       cases v <;> simp [Ctx.getKeyAtIndex, Ctx.dispatch, hm, Ctx.kindOf]
     rw [hdisp]
-    exact ⟨by simp [Spec.getKeyAtIndex, hhdr], ReadStepOK.same hc trivial⟩
+    exact ⟨by simp [Spec.getKeyAtIndex, hpos, hh], ReadStepOK.same hc trivial⟩
 
-theorem getObjProp_node_ok {c : Ctx} (hc : CInv c) (hwf : WF c.input) {h : Handle} {m : Node}
+theorem getObjProp_node_ok {c : Ctx} (hc : CInv c) {h : Handle} {m : Node}
     (hm : c.nodeAt? h = some m) (q : Bytes) :
     (c.getObjProp (.node h) q).2 = Spec.getObjProp c.input h q ∧
     ReadStepOK c (c.getObjProp (.node h) q).1 (c.getObjProp (.node h) q).2 := by
-  obtain ⟨pos, hd, hpos, hh, hinv, hgood, hhdr, hshape⟩ := nodeAt_spec hc hwf hm
+  obtain ⟨pos, hd, hpos, hh, hinv, hhdr, hshape⟩ := nodeAt_spec hc hm
   cases hd with
   | arr len body =>
     obtain ⟨es, e, rfl⟩ := inv_arr_form hinv hh
@@ -96,11 +149,13 @@ theorem getObjProp_node_ok {c : Ctx} (hc : CInv c) (hwf : WF c.input) {h : Handl
         c.nodeOp h (fun n => n.getProp c.input (eagerFuel c.input) q) PStep.val := by
       simp [Ctx.getObjProp, Ctx.dispatch, hm, Ctx.kindOf, fuel_eq]
     rw [hdisp]
-    obtain ⟨m', hinv', hcase⟩ := getProp_ok q hgood hinv hh
-    rcases hcase with ⟨i, ke, cn, hsp, hi, hres, hsc, hchild, hcinv⟩ | ⟨hsp, hres⟩
-    · have := nodeOp_child hc hwf hm rfl (getProp_opOK c.input q) PStep.val hpos hres hsc hchild hcinv
+    obtain ⟨m', hinv', hcase⟩ := getProp_tot q hinv hh
+    rcases hcase with ⟨i, ke, cn, hsp, hi, hres, hsc, hchild, hcinv⟩ | ⟨hsp, hres⟩ | ⟨hsp, hres⟩
+    · have := nodeOp_child hc hm rfl (getProp_opOK c.input q) PStep.val hpos hres hsc hchild hcinv
       simp only [Spec.getObjProp, hhdr, hsp]; exact this
-    · have := nodeOp_flat hc hwf hm rfl (getProp_opOK c.input q) PStep.val hres (by intro i h; cases h)
+    · have := nodeOp_flat hc hm rfl (getProp_opOK c.input q) PStep.val hres (by intro i h; cases h)
+      simp only [Spec.getObjProp, hhdr, hsp]; exact this
+    · have := nodeOp_flat hc hm rfl (getProp_opOK c.input q) PStep.val hres (by intro i h; cases h)
       simp only [Spec.getObjProp, hhdr, hsp]; exact this
   | scalar v e =>
     have hmv := inv_scalar_form hinv hh
@@ -117,10 +172,10 @@ theorem shape_valueLength {n n' : Node} (h : n.shape = n'.shape) : n.valueLength
   | obj l ps e => cases n' <;> simp [Node.shape] at h; subst h; rfl
 
 /-- length and string address are read off the node without touching anything -/
-theorem getValLen_node_ok {c : Ctx} (hc : CInv c) (hwf : WF c.input) {h : Handle} {m : Node}
+theorem getValLen_node_ok {c : Ctx} (hc : CInv c) {h : Handle} {m : Node}
     (hm : c.nodeAt? h = some m) :
     c.getValLen (.node h) = Spec.getValLen c.input h ∧ c.strOffset h = Spec.strOffset c.input h := by
-  obtain ⟨pos, hd, hpos, hh, hinv, hgood, hhdr, hshape⟩ := nodeAt_spec hc hwf hm
+  obtain ⟨pos, hd, hpos, hh, hinv, hhdr, hshape⟩ := nodeAt_spec hc hm
   constructor
   · simp only [Ctx.getValLen, hm, Spec.getValLen, hhdr]
     rw [shape_valueLength hshape]
@@ -130,33 +185,38 @@ theorem getValLen_node_ok {c : Ctx} (hc : CInv c) (hwf : WF c.input) {h : Handle
     | arr len body => obtain ⟨es, e, rfl⟩ := inv_arr_form hinv hh; rfl
     | map len body => obtain ⟨ps, e, rfl⟩ := inv_map_form hinv hh; rfl
 
-/-- `input_get`: a new root allocation whose box is the header at offset 0 -/
-theorem inputGet_ok {c : Ctx} (hc : CInv c) (hwf : WF c.input) :
+/-- `input_get`: when the header at offset 0 reads, a new root allocation whose box is that
+    header; otherwise `ReadError` and nothing is allocated -/
+theorem inputGet_ok {c : Ctx} (hc : CInv c) :
     (c.inputGet).2 = Spec.valueAt c.input c.roots.size [] ∧
     CInv (c.inputGet).1 ∧ (c.inputGet).1.input = c.input ∧ (c.inputGet).1.interner = c.interner ∧
-    (c.inputGet).1.roots.size = c.roots.size + 1 ∧
+    (c.inputGet).1.roots.size = (if (readHdr c.input 0).isSome then c.roots.size + 1 else c.roots.size) ∧
     HandlesKept c (c.inputGet).1 ∧ (c.inputGet).2.handleOK (c.inputGet).1 := by
-  obtain ⟨e, he⟩ := hwf
-  obtain ⟨hd, hh⟩ := skip_some_hdr he
-  have hstep : c.inputGet = ({ c with roots := c.roots.push (mkNode hd) },
-      Ctx.encodeNode { root := c.roots.size, path := [] } (mkNode hd)) := by
-    simp [Ctx.inputGet, hh]
-  rw [hstep]
-  refine ⟨by simp [Spec.valueAt, specPath, hh], ?_, rfl, rfl, by simp, ?_, ?_⟩
-  · intro k r hk
-    simp only [Array.getElem?_push] at hk
-    by_cases hks : k = c.roots.size
-    · rw [if_pos hks] at hk; simp at hk; subst hk; exact fresh_inv hh
-    · rw [if_neg hks] at hk; exact hc k r hk
-  · intro h2 m2 hm2
-    unfold Ctx.nodeAt? at hm2 ⊢
-    cases hr : c.roots[h2.root]? with
-    | none => rw [hr] at hm2; cases hm2
-    | some r =>
-      have hlt := roots_lt hr
-      simp only [Array.getElem?_push, if_neg (show ¬ h2.root = c.roots.size by omega)]
-      exact ⟨m2, hm2, rfl⟩
-  · apply encodeNode_handleOK
-    simp [Ctx.nodeAt?, Node.getPath?]
+  cases hh : readHdr c.input 0 with
+  | none =>
+    have hstep : c.inputGet = (c, .err ErrorCode_ReadError) := by simp [Ctx.inputGet, hh]
+    rw [hstep]
+    exact ⟨by simp [Spec.valueAt, specPath, hh], hc, rfl, rfl, by simp, HandlesKept.refl c, trivial⟩
+  | some hd =>
+    have hstep : c.inputGet = ({ c with roots := c.roots.push (mkNode hd) },
+        Ctx.encodeNode { root := c.roots.size, path := [] } (mkNode hd)) := by
+      simp [Ctx.inputGet, hh]
+    rw [hstep]
+    refine ⟨by simp [Spec.valueAt, specPath, hh], ?_, rfl, rfl, by simp, ?_, ?_⟩
+    · intro k r hk
+      simp only [Array.getElem?_push] at hk
+      by_cases hks : k = c.roots.size
+      · rw [if_pos hks] at hk; simp at hk; subst hk; exact fresh_inv hh
+      · rw [if_neg hks] at hk; exact hc k r hk
+    · intro h2 m2 hm2
+      unfold Ctx.nodeAt? at hm2 ⊢
+      cases hr : c.roots[h2.root]? with
+      | none => rw [hr] at hm2; cases hm2
+      | some r =>
+        have hlt := roots_lt hr
+        simp only [Array.getElem?_push, if_neg (show ¬ h2.root = c.roots.size by omega)]
+        exact ⟨m2, hm2, rfl⟩
+    · apply encodeNode_handleOK
+      simp [Ctx.nodeAt?, Node.getPath?]
 
 end SfVerif
